@@ -21,7 +21,9 @@ INFO = {
 }
 
 DISCARD = ("ok", "is_ok", "is_err", "err", "unwrap_or", "unwrap_or_else", "unwrap_or_default", "map_or", "map_or_else",
-           "iter", "into_iter", "and_then", "is_ok_and", "is_err_and", "or", "or_else", "map")
+           "iter", "into_iter", "is_ok_and", "is_err_and", "or", "or_else")
+# adapters that keep the error of the Result they are applied to (only the Ok payload changes)
+KEEP_ERR = ("map_err", "map", "and_then", "inspect", "inspect_err")
 PANIC = ("unwrap", "expect", "unwrap_err", "expect_err", "unwrap_unchecked")
 RAW = re.compile(r"^(std::io::Read::(read|read_exact|read_to_end|read_to_string|read_vectored|read_buf)|"
                  r"std::io::BufRead::|std::io::Write::(write|write_vectored)$|std::fs::read$|std::fs::read_to_string$|"
@@ -128,7 +130,7 @@ def _use(b, l, E, depth):
                 t = (c2.name or "").rsplit("::", 1)[-1]
                 if cal == "std::ops::Try::branch":
                     verdicts.append("propagated")
-                elif (c2.name or "").startswith("std::result::Result::<T, E>::") and t == "map_err":
+                elif (c2.name or "").startswith("std::result::Result::<T, E>::") and t in KEEP_ERR:
                     verdicts.append(classify(b, c2, E, depth + 1))
                 elif (c2.name or "").startswith("std::result::Result::<T, E>::") and t in DISCARD:
                     verdicts.append("the error is discarded with Result::%s" % t)
